@@ -54,6 +54,7 @@ class Canon:
         self.atan = {}          # atom id -> (y, x, r)
         self.opaque = {}        # (op, key(arg)) -> atom value
         self.signs = []         # sign obligations: (poly N, poly D, '>=' or '<=')  meaning N/D >= 0
+        self.polar_inv = []     # (k, A): obligations k > 0 and -pi < A <= pi
         self.nonneg = []        # sqrt arguments: (N, D) must be >= 0
         self.axioms = set()
         self.sign_override = sign_override or {}
@@ -279,6 +280,17 @@ class Canon:
             y, x = val[a], val[b]
             if self.iszero(y) and x[0].is_ground and x[1].is_ground and x[0].LC > 0:
                 return self.const(Fraction(0))
+            # inverse polar rule: atan2(k sin A, k cos A) = A  for k > 0 and -pi < A <= pi (obligations recorded)
+            for kb, sc in self.trigbase.items():
+                if not sc or sc[0] is None or sc[1] is None: continue
+                sb, cb = sc
+                if self.iszero(sb) or self.iszero(cb): continue
+                ky = self.divv(y, sb); kx = self.divv(x, cb)
+                if self.eqv(ky, kx):
+                    A = self.trigargs[kb]
+                    self.polar_inv.append((ky, A))
+                    self.axioms.add('inverse polar: atan2(k sin A, k cos A) = A for k>0, -pi<A<=pi')
+                    return A
             rr = self.norm(y[0] ** 2 * x[1] ** 2 + x[0] ** 2 * y[1] ** 2, (y[1] * x[1]) ** 2)
             sp_n = self._split_square(rr[0]); sp_d = self._split_square(rr[1])
             kk = (self.key(y), self.key(x))
@@ -363,6 +375,18 @@ class Canon:
             lines.append("(assert (=> (and (not (= %s 0)) (< (- %s) %s) (< %s %s)) (< %s 1)))" % (a, TPI, a, a, TPI, c_))
             lines.append("(assert (=> (= %s 0) (and (= %s 0) (= %s 1))))" % (a, s_, c_))
             self.axioms.add('sign of sin on (0,pi)/(-pi,0), cos>0 on (-pi/2,pi/2), cos<1 on 0<|a|<2pi, with rational lower bound 3.1415926535 < pi')
+        PIH = "(/ 31415926536 10000000000)"; HPIH = "(/ 31415926536 20000000000)"
+        for at, v in self.atan.items():
+            al = 'n%d' % at
+            lines.append("(assert (and (<= (- %s) %s) (<= %s %s)))" % (PIH, al, al, PIH))
+            if v is None: continue
+            y, x, r = v
+            ys, xs = self.rat_smt(y), self.rat_smt(x)
+            lines.append("(assert (=> (>= %s 0) (>= %s 0)))" % (ys, al))
+            lines.append("(assert (=> (<= %s 0) (<= %s 0)))" % (ys, al))
+            lines.append("(assert (=> (>= %s 0) (and (<= (- %s) %s) (<= %s %s))))" % (xs, HPIH, al, al, HPIH))
+            lines.append("(assert (=> (and (= %s 0) (> %s 0)) (= %s 0)))" % (ys, xs, al))
+            self.axioms.add('atan2 range: |a|<=pi, sign(a)=sign(y), |a|<=pi/2 when x>=0 (rational upper bound 3.1415926536 > pi)')
         return lines
 
     def steps(self, ids=None):
